@@ -94,6 +94,7 @@ type File struct {
 	Messages []*descriptorpb.DescriptorProto
 	Enums    []*descriptorpb.EnumDescriptorProto
 	Services []Service
+	Deps     []protoreflect.FileDescriptor // extra imports (e.g. testpb.File_api_test_proto)
 }
 
 var wellKnownDeps = []protoreflect.FileDescriptor{
@@ -129,6 +130,9 @@ func (f File) Proto() *descriptorpb.FileDescriptorProto {
 	for _, d := range wellKnownDeps {
 		fdp.Dependency = append(fdp.Dependency, d.Path())
 	}
+	for _, d := range f.Deps {
+		fdp.Dependency = append(fdp.Dependency, d.Path())
+	}
 	for _, s := range f.Services {
 		sp := &descriptorpb.ServiceDescriptorProto{Name: proto.String(s.Name)}
 		for _, m := range s.Methods {
@@ -158,7 +162,7 @@ func (f File) Proto() *descriptorpb.FileDescriptorProto {
 // Build creates the file descriptor and a registry holding it plus its dependencies.
 func (f File) Build() (protoreflect.FileDescriptor, *protoregistry.Files, error) {
 	reg := &protoregistry.Files{}
-	for _, d := range wellKnownDeps {
+	for _, d := range append(append([]protoreflect.FileDescriptor{}, wellKnownDeps...), f.Deps...) {
 		if _, err := reg.FindFileByPath(d.Path()); err == nil {
 			continue
 		}
